@@ -26,6 +26,8 @@ type Obligation struct {
 	NDecl   int      `json:"-"`
 	fv      *FV
 	Raw     string `json:"-"` // complete script for lemma obligations
+	Batch   []*Obligation `json:"-"` // children proved together by this obligation (conjunction of their goals)
+	InBatch *Obligation   `json:"-"`
 	Verdict string `json:"verdict"`
 	Solver  string `json:"solver"`
 	Time    float64 `json:"time_s"`
@@ -149,6 +151,7 @@ type FV struct {
 	assumedUsed map[string]bool
 	calleesUsed map[string]bool
 	quietUpdate bool
+	batches     []*Obligation
 }
 
 type Kont func(*State)
